@@ -994,8 +994,24 @@ pub async fn validate_with(
     };
     let now = datetime_of(now_ns);
     if node.vec_impl {
-        let reqs = vec_requirements(node);
-        sigv4_validate_request(req, &node.cfg.region, &node.cfg.service, prov, now, &reqs, opts).await
+        // A deployment keeps its requirement set for its lifetime and adjusts it at run time: the
+        // same object serves every validation of this node on this thread, and between two uses a
+        // decoy name is declared and withdrawn again (a net no-op).
+        let key = format!("{:?}|{}", node.cfg, node.case_seed);
+        let mut reqs = KEPT_REQUIREMENTS.with(|m| m.borrow_mut().remove(&key)).unwrap_or_else(|| vec_requirements(node));
+        reqs.add_always_present("X-Decoy-Between-Uses");
+        reqs.add_prefix("x-decoy-between-");
+        reqs.remove_always_present("x-decoy-between-uses");
+        reqs.remove_prefix("X-DECOY-BETWEEN-");
+        let r = sigv4_validate_request(req, &node.cfg.region, &node.cfg.service, prov, now, &reqs, opts).await;
+        KEPT_REQUIREMENTS.with(|m| {
+            let mut m = m.borrow_mut();
+            if m.len() > 32 {
+                m.clear();
+            }
+            m.insert(key, reqs);
+        });
+        r
     } else {
         let rc = |v: &Vec<String>| -> Vec<Cow<'static, str>> {
             v.iter().map(|s| Cow::Owned(recase(s, node.case_seed))).collect()
@@ -1004,6 +1020,10 @@ pub async fn validate_with(
         let reqs = SliceSignedHeaderRequirements::new(&a, &c, &p);
         sigv4_validate_request(req, &node.cfg.region, &node.cfg.service, prov, now, &reqs, opts).await
     }
+}
+
+thread_local! {
+    static KEPT_REQUIREMENTS: std::cell::RefCell<std::collections::BTreeMap<String, VecSignedHeaderRequirements>> = const { std::cell::RefCell::new(std::collections::BTreeMap::new()) };
 }
 
 pub fn to_valout(
@@ -1357,6 +1377,67 @@ pub fn validate_simple(req: Request<Bytes>, node: &Node, now_ns: i128, accounts:
 
 /// Control twin (C14): the same request, node, instant and provider *answer*, but an immediate
 /// provider (no pending states), alone on the executor.
+/// The same validation through the parts of the public surface the simulated world does not use:
+/// the key store wrapped by `service_for_signing_key_fn`, and the body handed over as one of the
+/// types the library converts itself (`Bytes`, `Vec<u8>`, or `()` for an empty body). The provider
+/// answers at once, so the future is driven with a no-op waker.
+pub fn validate_via_adapter(req: Request<Bytes>, node: &Node, now_ns: i128, accounts: &[Account], body_kind: u8) -> Option<ValOut> {
+    let accts: Vec<Account> = accounts.to_vec();
+    // (bound to a name first: the adapter's own bound is `FnOnce`, which would otherwise be taken as
+    // the closure's kind — a service must be callable more than once)
+    let key_store = move |req: GetSigningKeyRequest| {
+        let accts = accts.clone();
+        async move {
+            match keystore_lookup(&accts, req.access_key(), req.session_token(), &Answer::Normal) {
+                Ok((acct, secret)) => {
+                    let k = derive_with_library(secret, req.request_date(), req.region(), req.service(), 0).map_err(|e| Box::new(HarnessError(e)) as BoxError)?;
+                    GetSigningKeyResponse::builder().principal(principal_for(acct)).session_data(session_for(acct)).signing_key(k).build().map_err(|e| Box::new(e) as BoxError)
+                }
+                Err(a) => Err(make_provider_error(&a, 0)),
+            }
+        }
+    };
+    let mut provider = scratchstack_aws_signature::service_for_signing_key_fn(key_store);
+    let opts = SignatureOptions {
+        s3: node.cfg.s3,
+        url_encode_form: node.cfg.fold,
+    };
+    let now = datetime_of(now_ns);
+    let rc = |v: &Vec<String>| -> Vec<Cow<'static, str>> { v.iter().map(|s| Cow::Owned(recase(s, node.case_seed))).collect() };
+    let (a, c, p) = (rc(&node.cfg.always), rc(&node.cfg.cond), rc(&node.cfg.prefixes));
+    let reqs = SliceSignedHeaderRequirements::new(&a, &c, &p);
+    let (parts, body) = req.into_parts();
+    struct Noop;
+    impl Wake for Noop {
+        fn wake(self: Arc<Self>) {}
+    }
+    let waker = Waker::from(Arc::new(Noop));
+    let mut cx = Context::from_waker(&waker);
+    macro_rules! drive {
+        ($fut:expr) => {{
+            let mut fut = Box::pin($fut);
+            let mut out = None;
+            for _ in 0..16 {
+                if let Poll::Ready(v) = fut.as_mut().poll(&mut cx) {
+                    out = Some(to_valout(v));
+                    break;
+                }
+            }
+            out
+        }};
+    }
+    let r = catch_unwind(AssertUnwindSafe(|| match body_kind % 3 {
+        0 => drive!(sigv4_validate_request(Request::from_parts(parts, body), &node.cfg.region, &node.cfg.service, &mut provider, now, &reqs, opts)),
+        1 => drive!(sigv4_validate_request(Request::from_parts(parts, body.to_vec()), &node.cfg.region, &node.cfg.service, &mut provider, now, &reqs, opts)),
+        _ if body.is_empty() => drive!(sigv4_validate_request(Request::from_parts(parts, ()), &node.cfg.region, &node.cfg.service, &mut provider, now, &reqs, opts)),
+        _ => drive!(sigv4_validate_request(Request::from_parts(parts, body), &node.cfg.region, &node.cfg.service, &mut provider, now, &reqs, opts)),
+    }));
+    match r {
+        Ok(v) => v,
+        Err(p) => Some(ValOut::Panicked(panic_text(&p))),
+    }
+}
+
 pub fn validate_control(req: Request<Bytes>, node: &Node, now_ns: i128, accounts: &[Account], script: &ProvScript, cache_level: u8) -> ValOut {
     let shared = Arc::new(Mutex::new(Shared::new(accounts.to_vec(), cache_level)));
     {
